@@ -143,19 +143,9 @@ class PacketzQueue(JSONBase):
                     yield packet
 
     def receive_0(self) -> Iterator[PacketLike]:
-        with self.reader() as queue:
-            lines = queue.readlines()
-        for serial in lines:
-            try:
-                packet = unpack(serial)
-            except (BadPacketError, json.JSONDecodeError, TypeError):
-                continue  # NOTE Incomplete? Wait and retry
-            except (PacketHashError, ValueError):
-                continue  # NOTE Skip and continue!
-            if packet.id in self._seen:
-                continue
-            self._seen.add(packet.id)
-            yield packet
+        # NOTE: reading all lines at once moved the offset past a partially written
+        #   last record, which was then lost; the line-by-line reader stops before it
+        yield from self.receive()
 
     async def receive_async(self) -> AsyncGenerator[PacketLike, None]:
         try:
